@@ -211,6 +211,9 @@ class TrainerWorld(World):
             cfg["param"] = rc.choice(["weight", "bias", "delay"]) if dmode != "none" else rc.choice(["weight", "bias"])
             cfg["plasticity"] = rc.choice([0.1, 0.5, -0.2])
             cfg["target"] = rc.choice([0.05, 0.3, 0.6, 0.9])
+        # kernel hyper-parameters may be given as tensors (registered as buffers on the per-cell state)
+        kt = stream(seed, "ktensor")
+        cfg["ktensor"] = kt.choice(["none", "none", "both", "post", "pre", "mixed"]) if "Kernel" in trainer or trainer.startswith("cross") else "none"
         T = 4 if tiny else ro.randint(4, 40 if tier == "thorough" else 24)
         ops = []
         nin = cfg["B"] * int(np.prod(geom.inshape))
@@ -301,13 +304,24 @@ class TrainerWorld(World):
         kpost = dict(learning_rate=a, time_constant=cfg["tc_a"])
         kpre = dict(learning_rate=b, time_constant=cfg["tc_b"])
         kern = (IF.exp_stdp_post_kernel, IF.exp_stdp_pre_kernel)
+        kt = cfg.get("ktensor", "none")
+
+        def tens(d, keys):
+            return {k: (torch.tensor(float(v)) if k in keys else v) for k, v in d.items()}
+        if name == "DelayAdjustedKernelSTDPD":
+            kpost = dict(learning_rate=a * 0.2, time_constant=cfg["tc_a"])
+            kpre = dict(learning_rate=b * 0.2, time_constant=cfg["tc_b"])
+        if kt in ("both", "post"):
+            kpost = tens(kpost, ("learning_rate", "time_constant"))
+        if kt in ("both", "pre"):
+            kpre = tens(kpre, ("learning_rate", "time_constant"))
+        if kt == "mixed":
+            kpost, kpre = tens(kpost, ("time_constant",)), tens(kpre, ("learning_rate",))
         if name == "KernelSTDP":
             return learn.KernelSTDP, kern, dict(kernel_post_kwargs=kpost, kernel_pre_kwargs=kpre, delayed=delayed, interp_tolerance=cfg["tol"], batch_reduction=red)
         if name == "DelayAdjustedKernelSTDP":
             return learn.DelayAdjustedKernelSTDP, kern, dict(kernel_post_kwargs=kpost, kernel_pre_kwargs=kpre, batch_reduction=red)
         if name == "DelayAdjustedKernelSTDPD":
-            kpost = dict(learning_rate=a * 0.2, time_constant=cfg["tc_a"])
-            kpre = dict(learning_rate=b * 0.2, time_constant=cfg["tc_b"])
             return learn.DelayAdjustedKernelSTDPD, kern, dict(kernel_post_kwargs=kpost, kernel_pre_kwargs=kpre, batch_reduction=red)
         if name == "LinearHomeostasis":
             return learn.LinearHomeostasis, (), dict(plasticity=cfg["plasticity"], target=cfg["target"], param=cfg["param"], batch_reduction=red)
